@@ -18,7 +18,7 @@ Acts == { M(<<"+b", m>>) : m \in Masks \ {""} } \cup { M(<<"+e", m>>) : m \in {"
         \cup { M(<<"+I", m>>) : m \in {"a*a", "?!*@*"} } \cup { M(<<"+i">>), M(<<"b">>), M(<<"-b", "a">>), M(<<"-b", "*">>), M(<<>>),
                  M(<<"-I", "a*a">>), M(<<"-I", "?!*@*">>), M(<<"-e", "a">>), M(<<"-e", "zo?">>), M(<<"-b", "zoë@127.0.0.3">>), M(<<"+I">>), M(<<"+e">>) }
         \cup { St(c, "JOIN", <<<<"#one">>>>) : c \in {B, C} } \cup { St(c, "PRIVMSG", <<<<"#one">>, <<"hi">>>>) : c \in {A, B, C} }
-        \cup { St(c, "WHO", <<<<m>>>>) : c \in {A, C}, m \in {"a*a", "*a", "z??", "zo?", "?", "*!*@127.0.0.?", "a*a*a*a*a*a*b", "*ë"} }
+        \cup { St(c, "WHO", <<<<m>>>>) : c \in {A, C}, m \in {"a*a", "*a", "z??", "zo?", "?", "*!*@127.0.0.?", "a*a*a*a*a*a*b", "*ë", "*127.0.0.2", "*~u?*", "*eal*u3"} }
         \cup { St(c, "WHOIS", <<<<m>>>>) : c \in {A, C}, m \in {"a*a", "zo?", "?", "*"} }
         \cup { St(c, "OPER", <<<<"god">>, <<"godpass">>>>) : c \in {A, B, C} }
         \cup { St(B, "NICK", <<<<"abba">>>>), St(A, "WHO", <<<<"abba!*@*">>>>), St(A, "WHO", <<<<"a!*@*">>>>) }   \* the text masks are matched against follows a rename
